@@ -445,9 +445,6 @@ def _has_short_split(case):
 
 
 REGIONS = {
-    # a replacement that creates an initializer with a fixed name, applied more than once in one graph: the second registration is
-    # skipped/renamed inconsistently and the new node refers to an undefined '<name>_1'
-    "replacement_initializer_same_name_twice": lambda c: c.get("rule") == "abs_plus_zero_init",
     # patterns with several output nodes: the replacement is inserted at the position of ONE of them (documented TODO in
     # _apply_to_graph_or_function), consumers that come earlier in the node list then use a value before its definition
     "multi_output_pattern_insertion_point": lambda c: c.get("rule") in ("neg_and_abs", "neg_and_abs_keep"),
